@@ -1378,7 +1378,7 @@ pub fn def(ctx: &Ctx) -> PropertyDef {
         ],
         sections: vec![Section::random(
             "histories",
-            ctx.cases(60000, 1500000),
+            ctx.cases(60000, 300000),
             move || {
                 prop::collection::vec(op_strategy(), 0..=maxlen).prop_map(|ops| History { ops })
             },
